@@ -236,6 +236,28 @@ def exec_loop_with_invariant(ctx, s, fr, spec, kind, iterable=None):
             raise PathEnd()
         ctx.exec_block(s.orelse, fr)
         return
+    # ---- for key in <instance dict with unknown entries>: abstract iteration (any count, any order)
+    from .interp import SymDictKeys
+    from .seqs import SymDict
+    if isinstance(iterable, SymDict):
+        iterable = SymDictKeys(iterable)
+    if isinstance(iterable, SymDictKeys):
+        ctx.prove(base + "/inv-entry", ctx.as_goal(ctx.call_spec(spec.inv, ns_now())))
+        k = ctx.choose(2, "loop")
+        havoc()
+        ctx.assume(ctx.as_goal(ctx.call_spec(spec.inv, ns_now())))
+        if k == 0:
+            ctx.assign(s.target, ctx.fresh_str("key"), fr)
+            try:
+                ctx.exec_block(s.body, fr)
+            except E._Break:
+                return
+            except E._Continue:
+                pass
+            ctx.prove(base + "/inv-keep", ctx.as_goal(ctx.call_spec(spec.inv, ns_now())))
+            raise PathEnd()
+        ctx.exec_block(s.orelse, fr)
+        return
     # ---- for x in <symbolic sequence>
     if not isinstance(iterable, SSeq):
         raise Unsupported("loop invariant on a for loop over a non-symbolic iterable")
@@ -255,6 +277,8 @@ def exec_loop_with_invariant(ctx, s, fr, spec, kind, iterable=None):
         ctx.assume(ctx.as_goal(ctx.call_spec(spec.inv, ns_now({dn: done}))))
         xo = elem.materialize(ctx, x)
         ctx.assign(s.target, xo, fr)
+        if spec.hint is not None:
+            ctx.call_spec(spec.hint, ns_now({dn: done}))
         try:
             ctx.exec_block(s.body, fr)
         except E._Break:
